@@ -86,6 +86,11 @@ def wrap(ports, dgrams, tail_stop=True):
 
 def rerun_any(rp: dict, owns) -> list[dict]:
     import warnings
+    if "beh" in rp and "family" in rp:          # a TLC-generated behaviour of the end-to-end model (Gen_Switcher)
+        from .. import e2edrive
+        with warnings.catch_warnings():
+            warnings.simplefilter("ignore")
+            return [m for m in e2edrive.GenRun(rp["beh"], rp["family"], rp.get("beh_seed", 1)).run() if owns(m["what"])]
     if "beh" in rp:
         from .. import replay
         with warnings.catch_warnings():
